@@ -28,7 +28,7 @@ Definition enc_trick (t : trick_mode) : list N :=
   | TrickReserved r => [5; r]
   end.
 
-Definition obs_ppc (pol : bool) (base : nat) (buf : list N) : res (list N) :=
+Definition obs_ppc_at (pol : bool) (gbase : N) (base : nat) (buf : list N) : res (list N) :=
   do prio <- ppc_pes_priority buf;
   do al <- ppc_data_alignment_indicator buf;
   do cp <- ppc_copyright buf;
@@ -49,7 +49,8 @@ Definition obs_ppc (pol : bool) (base : nat) (buf : list N) : res (list N) :=
       ++ enc_pr (fun v => [v]) aci
       ++ enc_pr (fun v => [v]) crc
       ++ enc_pr (fun _ => []) ext
-      ++ [n2 (base + fst pl); n2 (length (snd pl))]).
+      ++ [gbase + n2 (base + fst pl); n2 (length (snd pl))]).
+Definition obs_ppc (pol : bool) (base : nat) (buf : list N) : res (list N) := obs_ppc_at pol 0 base buf.
 
 Definition obs_pes_header (pol : bool) (buf : list N) : res (list N) :=
   do h <- pes_header_from_bytes buf;
